@@ -13,7 +13,7 @@ package limited_rationality
 //@ spec randomOrderOf(p HeuristicParams) bool
 
 //@ func OrderAlternatives
-//@   property C01 C09 C11 C13 C12 C14
+//@   property C01 C09 C11 C13 C12 C14 C20
 //@   fnparam generator ensures 0.0 <= result && result < 1.0
 //@   ensures [fresh_rearrangement] fresh(result) && fresh(*result) && len(*result) == len(*alternatives)
 //@   ensures [members] forall k int :: 0 <= k && k < len(*result) ==> exists j int :: 0 <= j && j < len(*alternatives) && (*result)[k] == (*alternatives)[j]
@@ -23,7 +23,7 @@ package limited_rationality
 //@   ensures [input_untouched] unchanged(*alternatives)
 
 //@ func GetAlternativesSearchOrder
-//@   property C01 C09 C11 C13 C12 C14
+//@   property C01 C09 C11 C13 C12 C14 C20
 //@   fnparam generator ensures 0.0 <= result && result < 1.0
 //@   ensures [considered_untouched] unchanged(dm.ConsideredAlternatives) && unchanged(dm.NotConsideredAlternatives)
 //@   ensures [current_choice_first] len(currentChoiceOf(params)) > 0 ==> result0.Id == currentChoiceOf(params)
@@ -34,7 +34,7 @@ package limited_rationality
 //@   ensures [everybody_examined] len(currentChoiceOf(params)) == 0 ==> 1 + len(result1) == len(dm.ConsideredAlternatives)
 
 //@ func PrepareSequentialRanking
-//@   property C01 C12 C13 C09 C11 C14
+//@   property C01 C12 C13 C09 C11 C14 C20
 //@   requires [same_length] len(resultIds) == len(result)
 //@   ensures [one_entry_each] fresh(result0) && len(result0) == len(result) && forall i int :: 0 <= i && i < len(result) ==> result0[i].AlternativeResult == result[i]
 //@   ensures [links_next_only] forall i int :: 0 <= i && i < len(result) ==>
